@@ -100,6 +100,20 @@ Proof.
     split; [f_equal; lia | lia].
 Qed.
 
+(** the Junk auto-move: every accepted notice takes one message off both counts *)
+Lemma junk_dec : forall ns last c', 0 <= last ->
+  cnt_replay (map NExpunge ns) (Some last) = Some c' -> dec_each last ns = c' /\ 0 <= c'.
+Proof.
+  induction ns as [|k ns IH]; intros last c' Hl R.
+  - cbn in R. injection R as <-. split; [reflexivity | exact Hl].
+  - unfold cnt_replay in R. cbn [map fold_left cnt_apply] in R.
+    destruct ((1 <=? k) && (k <=? last)) eqn:V.
+    + apply andb_true_iff in V. destruct V as [V1 V2]. apply Z.leb_le in V1. apply Z.leb_le in V2.
+      unfold dec_each. cbn [fold_left]. replace (0 <? last) with true by (symmetry; apply Z.ltb_lt; lia).
+      apply (IH (last - 1) c' ltac:(lia)). exact R.
+    + exfalso. clear -R. induction (map NExpunge ns) as [|x l IHl]; [discriminate R | exact (IHl R)].
+Qed.
+
 Definition inv (st : tstate) : Prop :=
   t_cls st = None -> t_nodup st = true ->
   t_cnt st = Some (t_last st) /\ NoDup (map m_id (t_rows st)) /\ 0 <= t_last st.
@@ -119,8 +133,7 @@ Proof.
     + injection S as <- <- <-. repeat split; auto. apply count_nonneg.
     + injection S as <- <- <-. rewrite A. rewrite noop_count by (auto using count_nonneg).
       repeat split; auto. apply count_nonneg.
-    + injection S as <- <- <-. destruct (count_of (t_rows st) =? t_last st) eqn:E; [|discriminate].
-      apply Z.eqb_eq in E. rewrite A, E. repeat split; auto; try (rewrite <- E; apply count_nonneg).
+    + injection S as <- <- <-. cbn. repeat split; auto.
     + destruct (within _ (t_rows st) 1 (t_last st)) eqn:W; [|discriminate].
       unfold handle_expunge in S.
       pose proof (expunge_step_count _ _ _ N L W) as [R1 R2].
@@ -138,7 +151,9 @@ Proof.
     + unfold handle_store_junk in *.
       pose proof (junk_loop_nodup (map m_uid (t_rows st)) (parse_seqset_db set (Z.of_nat (length (t_rows st)))) _ N) as N'.
       destruct (store_junk_loop _ _ (t_rows st)) as [[ns ids] mb]. cbn [fst snd] in *.
-      destruct ns; [|discriminate]. injection S as <- <- <-. cbn. repeat split; auto.
+      destruct (cnt_replay (map NExpunge ns) (Some (t_last st))) as [c'|] eqn:R; [|discriminate].
+      injection S as <- <- <-. rewrite A, R.
+      destruct (junk_dec ns (t_last st) c' L R) as [E1 E2]. rewrite E1. repeat split; auto.
     + injection S as <- <- <-. cbn. repeat split; auto.
 Qed.
 
